@@ -141,11 +141,12 @@ def Pos.flatsWinner (p : Pos) : Color :=
   if cw > cb then .white else if cb > cw then .black
   else if p.cfg.blackWinsTies then .black else .none
 
-/-- `GameOver()` -/
+/-- `GameOver()` (with fix C02-reserve-wrap: each reserve is tested counter by counter; the byte sum
+`whiteStones+whiteCaps` wrapped to 0 for stones+capstones = 256) -/
 def Pos.gameOver (p : Pos) : Bool × Color :=
   let (col, ok) := p.hasRoad
   if ok then (true, col)
-  else if (p.whiteStones + p.whiteCaps) != 0#8 && (p.blackStones + p.blackCaps) != 0#8 &&
+  else if (p.whiteStones != 0#8 || p.whiteCaps != 0#8) && (p.blackStones != 0#8 || p.blackCaps != 0#8) &&
           (p.white ||| p.black) != p.c.Mask then (false, .none)
   else (true, p.flatsWinner)
 
